@@ -33,6 +33,29 @@ func (in Input) Bytes() []byte {
 		fillRandom(b, r)
 	case "text":
 		fillText(b, r)
+	case "randtail":
+		// incompressible, except that somewhere in the last 64 KiB of every
+		// 8 MiB (and of the whole input) a short stretch repeats bytes from a
+		// little earlier: a compressor finds nothing but one late match
+		fillRandom(b, r)
+		tail := func(end int) {
+			if end < 4096 {
+				return
+			}
+			at := end - 20 - r.Intn(30000)
+			if at < 2048 {
+				at = 2048
+			}
+			d := 1 + r.Intn(2000)
+			n := 8 + r.Intn(200)
+			for i := at; i < at+n && i < end; i++ {
+				b[i] = b[i-d]
+			}
+		}
+		for e := 8 << 20; e <= len(b); e += 8 << 20 {
+			tail(e)
+		}
+		tail(len(b))
 	case "repeat":
 		// long-distance repeats: segments copied from far back
 		fillRepeat(b, r)
